@@ -9,7 +9,7 @@ RULE = ("all well-formed note sets (<=2 over the full lattice, <=3/<=4 over a re
         "x 6 value lists x extension on/off, each compared with the independent fit model; distinct = distinct "
         "(values, extend, notes, events); non-trivial = some length changes or a note is removed")
 ASSUMPTIONS = ["inputs are well-formed; any minimiser of |d - length| over the fitting values is accepted"]
-REQUIRED_FLAGS = ["after_history", "note_removed", "note_extended", "note_shortened", "tie_between_two_values", "back_to_back_repeat",
+REQUIRED_FLAGS = ["insertion_order_reverse", "insertion_order_ons_first", "after_history", "note_removed", "note_extended", "note_shortened", "tie_between_two_values", "back_to_back_repeat",
                   "same_pitch_two_channels", "shorter_than_smallest_value", "non_note_event"]
 
 DEFAULT = [24, 12, 6, 16, 8, 4, 36, 18, 9]
@@ -99,6 +99,9 @@ def gen_cases(unit, ctx):
                             continue
                         if lib.well_formed([n1, n2]):
                             yield dict(base, notes=_mk([n1, n2]), events=[])
+                            if cls == (p, c0) and o2 <= o1 + l1 + 1:     # same pitch, abutting or nearly: insertion order matters
+                                yield dict(base, notes=_mk([n1, n2]), events=[], order="reverse")
+                                yield dict(base, notes=_mk([n1, n2]), events=[], order="ons_first")
     elif kind == "events":
         for ns in ([], [(0, 5, p, c0)], [(3, 1, p, c0), (4, 7, p, c0)]):
             for t1 in range(0, 13):
@@ -135,7 +138,9 @@ def check_case(case, ctx):
         s, notes, events, _ = live
     else:
         notes, events = case["notes"], case["events"]
-        s = lib.seq_abs(notes, events)
+        s = lib.seq_abs(notes, events, order=case.get("order", "sane"))
+        if case.get("order"):
+            R.flags.append("insertion_order_" + case["order"])
     in_ev, _, _ = lib.view_abs(s)
     try:
         if vals is None:
